@@ -232,6 +232,24 @@ CHECKS = {
           "class with a required attribute, a choice group declared in two runs.",
   'technique': 'Coq proof over a Gallina model of the schema emitter, the XML writer and soft validation against an XSD validity relation + fail-closed ast translator (xsdemit) + correspondences (model schema vs real XSD, XSD model vs libxml2, emit, soft) + lxml oracle',
  },
+ 'C01': {
+  'text': "For every generated service signature (wrapped / bare / out_bare, headers, multiple return values) over generated type "
+          "universes (customised primitives, nested and inherited classes, wrapped and unwrapped arrays, XmlAttribute / XmlData) "
+          "and every conformant argument tuple, a request denoting those values over XmlDocument, SOAP 1.1 or SOAP 1.2 under "
+          "validator None / soft / lxml invokes the user function exactly once with equal native values, and the response is "
+          "decoded by an independent schema-directed decoder, by zeep driven from the WSDL, and by the Spyne client to the "
+          "returned value - equality per type, identifying only absent=None, empty unwrapped sequence=None, b''=None (and "
+          "XmlData ''=None, which XML forces).",
+  'design_ref': 'DESIGN.md section 6 (C01)',
+  'note': TB + "Proved over hand-written Gallina models of xml.py / soap11.py / decorator.py / the server and client pipeline "
+          "(C01_xmlx_rt, C01_call_fidelity, for all leaf codecs, universes, services, values and user functions); leaf "
+          "hypothesis discharged from the C08 theorems; source tokens regenerated by translate/xmlwire.py so an edit breaks a "
+          "lemma; tied every run by 7 vm_compute correspondences and a WSGI / zeep / Spyne-client oracle. lxml validation "
+          "enters as a hypothesis (observed on every conformant request of a run); Decimal / Double / Uuid are an "
+          "assumed-identity codec in the theorems and oracle-only; polymorphism is C16's. Findings: bare None return not "
+          "nillable in the schema; WSDL header message of a class also used as a bare message.",
+  'technique': 'Coq proof over Gallina models of the XML/SOAP codecs and the call pipeline + generated-token translator (xmlwire) + model-vs-implementation correspondence + independent-decoder oracle (reference XSD codec, zeep in-process, Spyne client)',
+ },
 }
 NOT_APPLICABLE = {}
 
